@@ -50,7 +50,7 @@ pub fn make(fs: u32, res: (f32, f32, f32)) -> Option<(Box<dyn Rib>, usize)> {
 /// a controller told the sample rate fs + frac (0 <= frac < 1) with the buffer sized for fs
 pub fn make_frac(fs: u32, frac: f32, res: (f32, f32, f32)) -> Option<(Box<dyn Rib>, usize)> {
     mk!(fs, frac, res.0, res.1, res.2, 100, 500, 999, 1000, 1500, 1999, 2000, 8000, 9999, 10000, 22050, 44100, 47999, 48000, 96000,
-        192000)
+        192000, 250, 3000, 7000, 11025, 14000, 16000, 28000, 31250, 32000, 32768, 45000, 56000, 64000, 88200, 90000, 176400)
 }
 
 fn boundary(res: (f32, f32, f32)) -> f32 {
@@ -421,6 +421,24 @@ pub fn drive_fine(s: &mut Session, rng: &mut Rng, thorough: bool) {
             s.lift(rng, 1, 0);
             s.jr();
         }
+    }
+    // (c2) more sample rates (settling and lift-allowance counts are truncated products of the rate): a run one
+    //      sample short of the capture length is no press, the full length is
+    for &fs in &[250u32, 3000, 7000, 11025, 14000, 16000, 28000, 31250, 32000, 32768, 45000, 56000, 64000, 88200, 90000, 176400] {
+        if fs > 60000 && !thorough && fs != 90000 {
+            continue;
+        }
+        s.start(fs, rng.below(6) as usize);
+        let need = s.need;
+        s.hold(rng, need - 1, 1, 0);
+        s.jp();
+        s.lift(rng, 1, 0);
+        s.hold(rng, need, 1, 0);
+        s.jp();
+        s.hold(rng, 3, 1, 0);
+        s.lift(rng, 1, 0);
+        s.jr();
+        s.shapes.insert((fs as u64) << 8 | 0xff);
     }
     // (d) many complete press / release cycles with nobody polling the edge latches, then the latches
     for &(cycles, fs) in &[(256usize, 100u32), (512, 500), (255, 100), (65_536, 100), (65_600, 100)] {
